@@ -149,4 +149,17 @@ CLAIMS = {
   note='Trusted: Coq kernel; the generator/renderers of vlib/c18.py. NSX raw merge (append to the policy) and the diagnostics for unmergeable '
        'raw entries are covered by the repository tests and C20 only. F-C18-1..4 fixed.',
   technique='Coq theorems on a list-level merge model + differential check of the effective target'),
+ 'C16': dict(
+  text='Every `range` over a Go map (and every maps.Keys/Values/All not consumed by slices.Sorted*) in the planning, parsing, device and '
+       'program packages is inventoried from the current source with go/types on every run and regenerated as Gen/MapRanges.v; '
+       '`unreviewed = []` is a theorem, so a new or edited loop breaks the proof until it has been reviewed as an instance of one of five '
+       'patterns (per-key update, set union, collect-then-sort, existential search, any-element-with-agreement). For each pattern the result '
+       'is proved independent of the iteration order for every permutation of the keys. Search: the freshly built drc is run repeatedly in '
+       'fresh processes on every file-compare example of go/testdata (expanded by the library the tests use) and on inputs with ties; stdout, '
+       'stderr and exit status are compared byte for byte.',
+  design_ref='DESIGN.md section 4, C16',
+  note='Trusted: Coq kernel; the inventory tool (harness/cmd/nah/maprange.go, go/types); the review table vlib/maprange_sites.py that assigns '
+       'each loop its pattern (by reading; invalidated by any change of the loop text). Three order-dependent loops were found by this review '
+       'and repaired (fix: commits 68f7ba5, e9f8c0d, 07c618b) in addition to the four of the design round.',
+  technique='Coq theorems (order-independence of five loop patterns over all permutations) + source inventory regenerated per run + repeated-run differential check'),
 }
